@@ -1,2 +1,76 @@
-(** C19 — placeholder; pinned theorems follow. *)
-From BV Require Import Base.Prelude Hl.Spans Hl.Spec.
+(** C19 — Syntax highlighting covers the typed line exactly.
+    Only pinned statements, [exact], and [Print Assumptions]. *)
+From BV Require Import Base.Prelude Hl.Spans Hl.Spec Hl.Proofs Hl.Examples.
+Local Open Scope nat_scope.
+
+(** For every line, cursor and every token/piece tree handed to the highlighter that passes the
+    decidable check [prog_ok] (token positions ordered, piece indices nested and on char
+    boundaries, nested command texts embedded in the line — evaluated on every generated case by
+    the extracted checker, discharged by correspondence, not by proof), the model of
+    highlight_command returns spans (no panic) that are in range, on char boundaries, ordered,
+    non-overlapping, contiguous from 0 to the end, cover every byte, and render back to the line;
+    and no span is empty. *)
+Theorem c19_spans_cover : forall top cursor p, prog_ok top p = 0 ->
+  exists sp, highlight top cursor p = Some sp
+    /\ spec top sp
+    /\ Forall (fun x => sstart x < send x) sp.
+Proof. exact spans_cover. Qed.
+Print Assumptions c19_spans_cover.
+
+Theorem c19_builder_no_panic : forall top cursor p, prog_ok top p = 0 -> highlight top cursor p <> None.
+Proof. exact builder_no_panic. Qed.
+Print Assumptions c19_builder_no_panic.
+
+(** The span builder alone (append_span / skip_ahead / set_next_missing_kind), for any sequence of
+    calls whose ranges are ordered ([cur <= start <= end]) and on char boundaries and whose last
+    call ends at the line's length. *)
+Theorem c19_builder_cover : forall top cs, wf_calls top 0 cs -> end_cur 0 cs = blen top ->
+  exists st, run_calls top bst0 cs = Some st /\ spec top (b_spans st).
+Proof. exact builder_cover. Qed.
+Print Assumptions c19_builder_cover.
+
+(** Offsets taken from the char->byte table are char boundaries of the UTF-8 bytes (any string,
+    any index, including indices past the end, which clamp to the length). *)
+Theorem c19_byte_offset_aligned : forall line ci, is_cb (utf8 line) (byte_offset line ci) = true.
+Proof. exact byte_offset_aligned. Qed.
+Print Assumptions c19_byte_offset_aligned.
+
+(** The model's boundary test (table membership) is str::is_char_boundary on the bytes. *)
+Theorem c19_is_boundary_is_cb : forall line i, is_boundary line i = is_cb (utf8 line) i.
+Proof. exact is_boundary_is_cb. Qed.
+Print Assumptions c19_is_boundary_is_cb.
+
+(** The two assertions of upstream's fuzz target imply the property as worded (ordered,
+    non-overlapping, every byte covered, rendering reproduces the text). *)
+Theorem c19_spec_core_spec : forall line sp, spec_core line sp -> spec line sp.
+Proof. exact spec_core_spec. Qed.
+Print Assumptions c19_spec_core_spec.
+
+(** The decidable check run on the code's spans decides the property. *)
+Theorem c19_spec_code_correct : forall line sp, spec_code line sp = 0 <-> spec line sp.
+Proof. exact spec_code_correct. Qed.
+Print Assumptions c19_spec_code_correct.
+
+(** Non-vacuity: a line with a nested command substitution, a multi-byte char and a comment
+    satisfies the hypothesis, and the model's answer is the one the code gives. *)
+Theorem c19_nonvacuous : prog_ok ex_ok_line ex_ok_tree = 0 /\
+  highlight ex_ok_line 23 ex_ok_tree =
+    Some [(0, 4, KBuiltin); (4, 5, KComment); (5, 6, KQuoted); (6, 8, KQuoted); (8, 10, KCmdSubst);
+          (10, 12, KExternal); (12, 13, KCmdSubst); (13, 15, KDefault); (15, 16, KCmdSubst);
+          (16, 18, KQuoted); (18, 19, KQuoted); (19, 23, KQuoted)].
+Proof. exact ex_ok. Qed.
+Print Assumptions c19_nonvacuous.
+
+(** The hypothesis is needed (the builder does not clamp): with the token order the tokenizer
+    produces for a here-document the spans overlap (known finding KF-C19-heredoc-token-order). *)
+Theorem c19_unordered_tokens_refuted : prog_ok ex_heredoc_line ex_heredoc_tree = 1 /\
+  exists sp, highlight ex_heredoc_line 0 ex_heredoc_tree = Some sp /\ ~ spec ex_heredoc_line sp.
+Proof. exact ex_heredoc. Qed.
+Print Assumptions c19_unordered_tokens_refuted.
+
+(** ... and with the unescaped text of a backquoted command a span boundary falls inside a
+    multi-byte char: panic in a debug build (known finding KF-C19-backquote-escape-offsets). *)
+Theorem c19_unescaped_backquote_refuted :
+  prog_ok ex_bq_line ex_bq_tree = 4 /\ highlight ex_bq_line 0 ex_bq_tree = None.
+Proof. exact ex_bq. Qed.
+Print Assumptions c19_unescaped_backquote_refuted.
